@@ -317,8 +317,11 @@ def operand_tokens(rng, spec, labels, consts, first, hot=()):
             toks += [tok("op", "[", False), num_tok(rng, hi, False, "dec"), tok("op", ":", False), num_tok(rng, rng.choice([0, 0, 4]) if hi > 3 else 0, False, "dec"),
                      tok("op", "]", False)]
         return toks
-    if c < 0.75:
+    if c < 0.7:
         return [tok("id", "$", first)]
+    if c < 0.8:
+        # a call of a built-in function as the operand: the parenthesis belongs to the name in front of it, blank or not
+        return [tok("id", "le", first), tok("op", "(", False), num_tok(rng, rng.choice([0x12, 0x1234, 0x7f00]), False, "hex"), tok("op", ")", False)]
     if c < 0.9:
         return [tok("op", "(", first), num_tok(rng, rng.randrange(0, 100), False, "dec"), tok("op", "+", True),
                 num_tok(rng, rng.randrange(0, 100), True, "dec"), tok("op", ")", False)]
@@ -683,9 +686,22 @@ def rerender(rng, P):
     # (a symbol spelled like a literal of some pattern - a register name - is not renamed: with the other
     #  name the line could stop being ambiguous, which changes what it means)
     literal_words = {part["lc"] for r in Q["rules"] for part in r["pat"] if part["p"] == "lit"}
+    # (nor one that some expression also uses as a LOCAL variable - `{ a = 1, a }`: renaming the symbol would
+    #  rename the uses of the local and leave its assignment alone)
+    assigned = set()
+    def collect(e):
+        if isinstance(e, dict):
+            if e.get("k") == "assign":
+                assigned.add(e.get("name"))
+            for v in e.values():
+                collect(v)
+        elif isinstance(e, list):
+            for v in e:
+                collect(v)
+    collect([it["e"] for it in Q["items"]] + [it["es"] for it in Q["items"]])
     if rng.random() < 0.6:
         for it in Q["items"]:
-            if it["k"] in ("label", "const") and it["lvl"] == 0 and it["name"].lower() not in literal_words:
+            if it["k"] in ("label", "const") and it["lvl"] == 0 and it["name"].lower() not in literal_words and it["name"] not in assigned:
                 ren[it["name"]] = it["name"] + rng.choice(["_x", "Z", "_q2"])
     for it in Q["items"]:
         if it["k"] in ("label", "const") and it["lvl"] == 0 and it["name"] in ren:
